@@ -1836,6 +1836,55 @@ def report_failed_obligations(ctx, tag, failed, describe):
     return n
 
 
+def oracle_c02_nc_child_table():
+    """NC Child Deduction Worksheet line 4 ("enter the deduction amount per child from the Child Deduction Table") is
+    a LOOK-UP instruction, which the instruction matcher does not certify; the table is transcribed in the citation
+    table (tools/c08_statutory.json, nc_child_agi_limit_k / nc_child_amount_k, limits INCLUSIVE: "Up to $Y").  The real
+    line is evaluated for every year and filing status at every limit, one dollar either side, 0 and above the table
+    (seed C02g: a closed formula with floor division that moves an AGI exactly on a limit into the next band)."""
+    import c07_oracle
+    from habutax import forms as hforms
+    table = json.load(open(os.path.join(VERIF, 'tools', 'c08_statutory.json')))['amounts']
+    ent = {e['id']: e for e in table if e['id'].startswith('nc_child_')}
+    probs, checked = [], 0
+
+    class M(dict):
+        def __getitem__(self, k):
+            if k in self.keys():
+                return dict.__getitem__(self, k)
+            return dict.__getitem__(self, k.split('.', 1)[1])
+    for year in (2021, 2022, 2023):
+        cls = next((f for f in hforms.available_forms[year] if f.form_name == 'nc_d-400_child_deduction_wkst'), None)
+        if cls is None:
+            continue
+        form = cls()
+        line4 = next((f for f in form.fields() if f.base_name() == '4'), None)
+        if line4 is None:
+            probs.append((f'nc-child-table:{year}:absent', f'{year}: the Child Deduction Worksheet has no line 4', {'year': year}))
+            continue
+        _, members = c07_oracle.load_year(year)
+        for st, member in members.items():
+            ks = [k for k in range(1, 10) if str(year) in ent.get(f'nc_child_agi_limit_{k}', {}).get('values', {})
+                  and str(year) in ent.get(f'nc_child_amount_{k}', {}).get('values', {})]
+            limits = [float(ent[f'nc_child_agi_limit_{k}']['values'][str(year)][st]) for k in ks]
+            amounts = [float(ent[f'nc_child_amount_{k}']['values'][str(year)].get(st, ent[f'nc_child_amount_{k}']['values'][str(year)].get('all'))) for k in ks]
+            pts = sorted({0.0, 12345.0, limits[-1] + 25000.0} | {l + d for l in limits for d in (-1.0, 0.0, 1.0)})
+            for agi in pts:
+                want = next((a for l, a in zip(limits, amounts) if agi <= l), 0.0)
+                checked += 1
+                try:
+                    got = line4.value(M({'1040.filing_status': member}), M({'2': agi, 'nc_d-400.6': agi}))
+                except BaseException as e:  # noqa: BLE001
+                    if isinstance(e, (KeyboardInterrupt, SystemExit)):
+                        raise
+                    got = f'{type(e).__name__}: {e}'
+                if got != want:
+                    probs.append((f'nc-child-table:{year}:{st}', f'{year} nc_d-400_child_deduction_wkst.4, {member.name}, federal AGI {agi:.0f}: the Child Deduction Table says {want:.0f} per child, the line gives {got}',
+                                  {'year': year, 'status': member.name, 'federal_agi': agi, 'expected': want, 'got': str(got)}))
+                    break
+    return probs, checked
+
+
 def run_C02(ctx):
     import c02_oracle
     broken = check_obligations(ctx, PROPS['C02']['theorems'])
@@ -1904,6 +1953,13 @@ def run_C02(ctx):
         ctx.report(key, f"{v['year']} {v['form']}.{v['line']} = {v.get('got')} but the form's instruction ({v['instruction']['op']} {v['instruction']['args']}) gives {v.get('expected')} on the solution's own values {v.get('operands')}",
                    {'kind': 'scenario', 'case': dict(v.get('replay', {}), kind='scenario', observe=f"{v['form']}.{v['line']}")})
         reported += 1
+    tprobs, tchecked = oracle_c02_nc_child_table()
+    ctx.statement['c02-nc-child-table'] = {
+        'checked': tchecked, 'distinct_nontrivial': tchecked, 'violations': len(tprobs),
+        'rule': 'NC Child Deduction Worksheet line 4 (a look-up instruction the matcher does not certify): the real line evaluated per year x filing status at every limit of the Child Deduction Table as transcribed in the citation table, one dollar either side, 0 and above the table',
+        'samples': [{'table': 'nc_child_agi_limit_k / nc_child_amount_k of tools/c08_statutory.json'}]}
+    for key, what, rep in tprobs:
+        ctx.report(key, what, {'kind': 'line-evaluation', 'case': rep})
     if not ctx.build_ok and not ctx.violations:     # (known-finding hits do not count as found)
         ctx.report('obligation:build', 'generated obligations no longer build (the Python mirror of the matcher and the Lean matcher disagree, or the model changed)', {'log': ctx.build_log[-2000:]}, found=False)
     elif broken and not ctx.violations:
@@ -2298,7 +2354,7 @@ PROPS = {
         assumptions=['line definitions are deterministic strategy trees; Field.form(name) is used only on forms that are loaded (see known findings)']),
     'C05': dict(run=run_C05, theorems=[
         'HabuVerif.C05.schedule_independent', 'HabuVerif.C05.no_error_outcome_in_final',
-        'HabuVerif.C05.line_outcome_depends_only_on_read_names'],
+        'HabuVerif.C05.line_outcome_depends_only_on_read_names', 'HabuVerif.C05.returns_agree_on_line'],
         assumptions=['frame (Proofs/Frame.lean): for the regenerated catalogue, the outcome of any line is a function of the stored values and input answers its syntactic read sets describe -- nothing else in the stores can influence it',
                      'prompt is absent or answers every question as a function of the input name (partial refusal is order-dependent by nature and excluded, as the property says)',
                      'agreement of the abort KIND across schedules is not proved (partial); INI layout independence is proved for written files (Ini lemmas) and tested for hand-laid-out files']),
@@ -2382,10 +2438,10 @@ PROPS = {
         'shapes_2021', 'shapes_2022', 'shapes_2023', 'withholding_total', 'renumbering_keeps_withholding',
         'net_is_payments_minus_tax', 'solved_net_is_payments_minus_tax', 'withholding_one_for_one',
         'float_sum_line_total', 'float_sum_line_renumbering', 'float_sum_lines_2021', 'float_sum_lines_2022', 'float_sum_lines_2023',
-        'reads_only_frame', 'reads_only_2021', 'reads_only_2022', 'reads_only_2023', 'total_tax_ignores_everything_but_22_23_2023',
+        'reads_only_frame', 'reads_only_2021', 'reads_only_2022', 'reads_only_2023', 'total_tax_ignores_everything_but_22_23_2023', 'solved_lines_agree', 'solved_total_tax_agrees_2023',
         'L25b.line25b_shape_2021', 'L25b.line25b_shape_2022', 'L25b.line25b_shape_2023', 'L25b.eval_25b', 'L25b.line25b_total',
         'L25b.line25b_renumbering', 'L25b.line25b_one_for_one']],
-        assumptions=['PARTIAL: proved in exact cents for Form 1040 lines 25a and 25b (tax withheld on every W-2 / 1099-R / 1099-DIV / 1099-INT / 1099-G copy: total, renumbering, one cent for one cent) and for the float(sum(copies)) lines 1040.2a, 8959.1, 8959.19 (sum over the copies: a function of the multiset of amounts, at most 64 copies of at most 1e9 dollars) and for refund-minus-owed = 25a+25b+25c+26+32-24 in every returned state (amounts up to 1e10 dollars); ONE-STEP independence is proved (reads_only_frame over the regenerated read sets, re-checked by the kernel each run: lines 24, 25d, 26, 32, 33 of each year are functions of the literal names listed in reads_only_<year> and of nothing else in the stores, in particular of no withholding box); that lines 24, 25c, 26, 32 do not depend on the withholding boxes THROUGH the lines they read, the renumbering invariance of the other per-payer totals, and the monotonicity of total tax in wages and deductions are explored by the metamorphic oracle on real returns, not proved']),
+        assumptions=['PARTIAL: proved in exact cents for Form 1040 lines 25a and 25b (tax withheld on every W-2 / 1099-R / 1099-DIV / 1099-INT / 1099-G copy: total, renumbering, one cent for one cent) and for the float(sum(copies)) lines 1040.2a, 8959.1, 8959.19 (sum over the copies: a function of the multiset of amounts, at most 64 copies of at most 1e9 dollars) and for refund-minus-owed = 25a+25b+25c+26+32-24 in every returned state (amounts up to 1e10 dollars); ONE-STEP independence is proved (reads_only_frame over the regenerated read sets, re-checked by the kernel each run: lines 24, 25d, 26, 32, 33 of each year are functions of the literal names listed in reads_only_<year> and of nothing else in the stores, in particular of no withholding box), and its lift to returned states (solved_lines_agree: ANY two states the solver returns for the year, with the same loaded forms, that agree on the names such a line reads store the same value for it -- the induction step of whole-return independence); that lines 24, 25c, 26, 32 do not depend on the withholding boxes THROUGH the lines they read, the renumbering invariance of the other per-payer totals, and the monotonicity of total tax in wages and deductions are explored by the metamorphic oracle on real returns, not proved']),
     'C17': dict(run=run_C17, theorems=['HabuVerif.C17.' + t for t in [
         'names_unique', 'threshold_lookup_total', 'all_threshold_lookups_total', 'names_clean',
         'every_class_instantiates', 'declared_year_is_directory_year', 'metadata_present']],
